@@ -239,7 +239,7 @@ func c17RouteUnit(scheme string) core.Unit {
 
 func c17CorruptUnit(scheme string, lvl int) core.Unit {
 	return core.Unit{Name: "C17/corrupt/" + scheme, Weight: 10, Run: func(r *core.Result) {
-		probes := []string{versPools[scheme][0][2], versPools[scheme][1][4]}
+		probes := []string{versPools[scheme][0][2], versPools[scheme][1][4], versPools[scheme][1][0]}
 		seen := map[string]bool{}
 		for _, seed := range c17Seeds(scheme, lvl) {
 			for _, p := range probes {
@@ -338,7 +338,7 @@ func init() {
 				"distinct_nontrivial":           r.Counters["nontrivial"],
 			}
 		},
-		Rule:        "validation: for 3 (quick) / 9 (thorough) valid seed ranges per scheme, EVERY single-point corruption - delete at each position, replace by and insert each character of {a z A 0 9 : / | * = < > ! . - SP TAB NUL e-acute ~ DEL 0x1f 0x80} at each position - plus scheme case changes, operator manglings and prefix damage, each with 4 probes; a reference classifier (Appendix A.9) decides which results must be (false, error). routing: for each scheme every (comparator, bound, probe) over 45 discriminating version spellings must equal the scheme's ecosystem's own Compare and must be an error iff that ecosystem rejects a version; the run also proves that for every other ecosystem at least one pair distinguishes it (internal error otherwise). 28 near-miss scheme names must be rejected. distinct_nontrivial = cases with a definite expectation.",
+		Rule:        "validation: for 3 (quick) / 9 (thorough) valid seed ranges per scheme, EVERY single-point corruption - delete at each position, replace by and insert each character of {a z A 0 9 : / | * = < > ! . - SP TAB NUL e-acute ~ DEL 0x1f 0x80} at each position - plus scheme case changes, operator manglings and prefix damage, each with 5 probes (two releases, a pre-release spelling, an invalid and an empty string); a reference classifier (Appendix A.9) decides which results must be (false, error). routing: for each scheme every (comparator, bound, probe) over 45 discriminating version spellings must equal the scheme's ecosystem's own Compare and must be an error iff that ecosystem rejects a version; the run also proves that for every other ecosystem at least one pair distinguishes it (internal error otherwise). 28 near-miss scheme names must be rejected. distinct_nontrivial = cases with a definite expectation.",
 		Assumptions: []string{"version validity in rule 9 of the classifier is the scheme's ecosystem parser itself (C17 states it that way)", "the lone '*' range is not covered, as stated"},
 	})
 }
